@@ -55,7 +55,8 @@ func c20UserCN(i int) string {
 	}
 	return fmt.Sprintf("u%c", 'a'+i)
 }
-func c20UserDN(i int) string  { return fmt.Sprintf("cn=%s,%s", c20UserCN(i), c20People) }
+func c20UserDN(i int) string { return fmt.Sprintf("cn=%s,%s", c20UserCN(i), c20People) }
+
 // c20NGroups: four groups below the groups base and one that SetGroups puts elsewhere in the tree (what list an entry
 // is in is decided by the Set* call, not by its DN)
 const c20NGroups = 5
